@@ -45,8 +45,10 @@ var thoroughConfigs = []BuildConfig{
 	{GOOS: "windows", GOARCH: "amd64"},
 }
 
-// widthSensitive rules gate on amd64; their 32-bit results are informational.
-var widthSensitive = map[string]bool{"SIGNCONV": true}
+// widthSensitive rules give a verdict that depends on the width of int (a
+// uint32 -> int conversion is exact on amd64 and wraps on 386): a property that
+// uses one is also evaluated for linux/386 in the quick tier, and that result gates.
+var widthSensitive = map[string]bool{"SIGNCONV": true, "TABLE-GUARD": true, "SLICE-CAP": true, "LIMIT-STRICT": true, "LIMIT-IMPL": true, "TIMEOUT-CLAMP": true}
 
 var commonAssumptions = []string{
 	"go/types, go/ssa and the VTA call graph are sound for this program (no unsafe/reflect writes: checked by rule NO-UNSAFE where COW is claimed)",
